@@ -24,8 +24,10 @@ def scenario(rng, k, tier):
         L.append(f"create {H(10 + i)} {H(30 + i)}")
     wild_key = rng.randrange(nkeys)
     first = []
+    wild_allow = rng.random() < 0.5          # allow_repeat_tx of the wildcard policy: clones must inherit it, also after a re-key
+    allow = {}                                # allow_repeat_tx of the explicit streams
     if has_wild:
-        L.append(default_policy(rng, 0, ssrc_type=SSRC_ANY_OUT, keys=[(keys[wild_key], b"")]).line(20))
+        L.append(default_policy(rng, 0, ssrc_type=SSRC_ANY_OUT, keys=[(keys[wild_key], b"")], allow_repeat=wild_allow).line(20))
         first.append(20)
     L.append("create 1 " + " ".join(f"{x:x}" for x in first))
     table = {}        # ssrc -> key index (explicit)
@@ -38,7 +40,8 @@ def scenario(rng, k, tier):
         s = rng.choice(pool)
         if r < 0.3 and s not in table and s not in cloned:
             ki = rng.randrange(nkeys)
-            L.append(default_policy(rng, s, keys=[(keys[ki], b"")]).line(5))
+            allow[s] = rng.random() < 0.5
+            L.append(default_policy(rng, s, keys=[(keys[ki], b"")], allow_repeat=allow[s]).line(5))
             L.append("add 1 5"); L.append(f"# A {s:x} {ki}")
             table[s] = ki
         elif r < 0.42:
@@ -55,12 +58,12 @@ def scenario(rng, k, tier):
         elif r < 0.64 and has_wild:
             # re-key the wildcard: clones (present and future) switch to the new key, explicit streams keep theirs
             ki = rng.randrange(nkeys)
-            L.append(default_policy(rng, 0, ssrc_type=SSRC_ANY_OUT, keys=[(keys[ki], b"")]).line(8))
+            L.append(default_policy(rng, 0, ssrc_type=SSRC_ANY_OUT, keys=[(keys[ki], b"")], allow_repeat=wild_allow).line(8))
             L.append("update 1 8"); L.append("# V")
             wild_key = ki
         elif r < 0.70 and s in table:
             ki = rng.randrange(nkeys)
-            L.append(default_policy(rng, s, keys=[(keys[ki], b"")]).line(7))
+            L.append(default_policy(rng, s, keys=[(keys[ki], b"")], allow_repeat=allow.get(s, False)).line(7))
             L.append("update 1 7"); L.append(f"# U {s:x} {ki}")
             table[s] = ki
         else:
@@ -75,6 +78,10 @@ def scenario(rng, k, tier):
             for i in range(nkeys):
                 L.append(pkt_op("unprotect", 10 + i, f"@{a:x}", cap=len(pkt) + 20))
             L.append(f"# P {s:x} {exp}")
+            if exp >= 0 and rng.random() < 0.35:
+                # the same packet once more: whether a repeated index may be sent is part of the policy the SSRC is processed with
+                L.append(pkt_op("protect", 1, pkt, cap=len(pkt) + 20))
+                L.append(f"# P2 {s:x} {1 if (allow.get(s, False) if s in table else wild_allow) else 0}")
         if step % 20 == 19:
             L.append("nstreams 1"); L.append(f"# N {len(table) + len(cloned):x}")
     L.append("dealloc 1")
@@ -113,6 +120,12 @@ def monitor(script, c):
             hits.append({"what": "update of the wildcard policy failed", "signature": "map-wild-update-failed", "detail": f"line {i-1}"}); break
         if k == "U" and st(i - 1) != 0:
             hits.append({"what": "update of an existing explicit stream failed", "signature": "map-update-failed", "detail": f"line {i-1}"}); break
+        if k == "P2":
+            ps = st(i - 1)
+            want = 0 if t[3] == "1" else 9
+            if ps != want:
+                hits.append({"what": "repeated transmission of a packet index not handled according to the policy of the SSRC's stream (allow_repeat_tx of the explicit policy, else of the wildcard policy)",
+                             "signature": "map-wrong-policy-repeat", "detail": f"line {i-1}: status {ps}, expected {want}"}); break
         if k == "N":
             o = out.get(i - 1, [])
             if len(o) > 2 and int(o[2], 16) != int(t[2], 16):
